@@ -53,6 +53,10 @@ type Case struct {
 	Cuts     []int    `json:"cuts,omitempty"`
 	Listener bool     `json:"listener,omitempty"`        // server: through Server.Serve on a listener
 	Retrans  int      `json:"max_retransmits,omitempty"` // client: MaxRetransmits
+	// SettleMs: after the history has been processed the harness waits that long before it
+	// reads the list of invocations - a message that was refused must stay refused, not be
+	// handed to the handler a little later.
+	SettleMs int `json:"settle_ms,omitempty"`
 }
 
 // Server side: CER = acceptable; CER-app4 = acceptable, but the header carries
@@ -366,6 +370,9 @@ func runServer(c Case) *ev.Failure {
 			break
 		}
 	}
+	if c.SettleMs > 0 {
+		time.Sleep(time.Duration(c.SettleMs) * time.Millisecond)
+	}
 	if f := checkInvocations(c, e.app.invocations(), hbh, h); f != nil {
 		return f
 	}
@@ -472,6 +479,9 @@ func runClient(c Case) *ev.Failure {
 	h := -1
 	if c.Hist[pos] == "CEA" {
 		h = pos
+	}
+	if c.SettleMs > 0 {
+		time.Sleep(time.Duration(c.SettleMs) * time.Millisecond)
 	}
 	if f := checkInvocations(c, e.app.invocations(), hbh, h); f != nil {
 		return f
@@ -861,6 +871,23 @@ func TestC10ClientRandom(t *testing.T) {
 }
 
 // The sizes of the enumerated spaces are what the bounds say.
+// Messages sent ahead of the handshake are refused for good: nothing may reach a handler later
+// on, e.g. once the handshake has completed after all.
+func TestC10NoLateInvocation(t *testing.T) {
+	propServer.Enumerate(t, false, func(yield func(Case) bool) {
+		for _, hist := range [][]string{{"RAR", "CER", "RAR"}, {"CCR", "STR", "CER", "CCA", "RAR"}, {"RAR", "CER-app4", "CCR"}, {"STR", "CER-noapp", "CER"},
+			{"RAR", "RAR", "CER", "STR"}, {"CCA", "CER", "DWR", "RAR"}} {
+			for _, catchAll := range []bool{false, true} {
+				for _, frag := range []string{"whole", "per-message"} {
+					if !yield(Case{Role: "server", CatchAll: catchAll, Hist: hist, Frag: frag, SettleMs: 120}) {
+						return
+					}
+				}
+			}
+		}
+	})
+}
+
 func TestC10Space(t *testing.T) {
 	n := 0
 	enumerateServer(3, func(Case) bool { n++; return true })
